@@ -5,7 +5,7 @@
     input.  Real stack size, the allocator and the wall clock are only OBSERVED (isolated worker
     processes, see notes/C01.md).  Only statements here; proofs live in theories/C01/. *)
 From Coq Require Import ZArith List.
-From OxVerif Require Import C01.Mach C01.Kernels C01.KProofs C01.Depth C01.Judge.
+From OxVerif Require Import C01.Mach C01.Kernels C01.KProofs C01.Depth C01.Loops C01.Judge.
 From OxVerif Require C16.Model C16.Proofs C18.Model C18.Proofs C27.Model C27.Proofs.
 Import ListNotations.
 Open Scope Z_scope.
@@ -276,6 +276,78 @@ Proof. exact prev_novisit_refuted_proof. Qed.
 Check c01_prev_chain_without_visited_refuted : exists next, (forall off, next off <> None -> (off < 10)%nat) /\
   forall fuel, prev_loop_novisit next fuel 0 5 = CFuel.
 Print Assumptions c01_prev_chain_without_visited_refuted.
+
+(** ---- object-stream container resolution (reader.rs get_object / get_compressed_object): for ANY
+    map of type-2 entries (cycles of every length included) the recursion depth is at most
+    max_reconstruction_depth + 1 and the resolution ends *)
+Theorem c01_container_depth_bounded : forall cont fuel n,
+  (snd (get_object cont fuel [] 0 n) <= S MAX_LOAD_DEPTH)%nat.
+Proof. exact container_depth_bounded_proof. Qed.
+Check c01_container_depth_bounded : forall cont fuel n,
+  (snd (get_object cont fuel [] 0 n) <= S MAX_LOAD_DEPTH)%nat.
+Print Assumptions c01_container_depth_bounded.
+
+Theorem c01_container_resolution_terminates : forall cont n,
+  fst (get_object cont (MAX_LOAD_DEPTH + 2) [] 0 n) <> LFuel.
+Proof. exact container_resolution_terminates_proof. Qed.
+Check c01_container_resolution_terminates : forall cont n,
+  fst (get_object cont (MAX_LOAD_DEPTH + 2) [] 0 n) <> LFuel.
+Print Assumptions c01_container_resolution_terminates.
+
+(** loading the container without the being-loaded set: a 2-cycle never ends, depth = fuel *)
+Theorem c01_container_unguarded_refuted : exists cont n, forall fuel,
+  load_unguarded cont fuel 0 n = (LFuel, fuel).
+Proof. exact container_unguarded_refuted_proof. Qed.
+Check c01_container_unguarded_refuted : exists cont n, forall fuel,
+  load_unguarded cont fuel 0 n = (LFuel, fuel).
+Print Assumptions c01_container_unguarded_refuted.
+
+(** ---- classic xref entry loop: each iteration consumes a line or stops *)
+Theorem c01_xref_entry_loop_terminates : forall lines i count,
+  entry_loop false (S (length lines)) lines i count <> EFuel.
+Proof. exact entry_loop_terminates_proof. Qed.
+Check c01_xref_entry_loop_terminates : forall lines i count,
+  entry_loop false (S (length lines)) lines i count <> EFuel.
+Print Assumptions c01_xref_entry_loop_terminates.
+
+Theorem c01_xref_entry_loop_result_bounded : forall fuel lines i count k,
+  entry_loop false fuel lines i count = EDone k -> (k <= i + length lines)%nat.
+Proof. exact entry_loop_result_bounded_proof. Qed.
+Check c01_xref_entry_loop_result_bounded : forall fuel lines i count k,
+  entry_loop false fuel lines i count = EDone k -> (k <= i + length lines)%nat.
+Print Assumptions c01_xref_entry_loop_result_bounded.
+
+(** blank lines skipped above the end-of-input test: at EOF the loop never ends *)
+Theorem c01_xref_entry_loop_blank_first_refuted : forall fuel, entry_loop true fuel [] 0 1 = EFuel.
+Proof. exact entry_loop_blank_first_refuted_proof. Qed.
+Check c01_xref_entry_loop_blank_first_refuted : forall fuel, entry_loop true fuel [] 0 1 = EFuel.
+Print Assumptions c01_xref_entry_loop_blank_first_refuted.
+
+(** ---- bounded window read with a length from the file (xref.rs read_window_at, reached with a
+    /Length by reader.rs reconstruct_stream_object_bounded) *)
+Theorem c01_window_request_bounded : forall len, Loops.window_request len <= Loops.WINDOW_CHUNK.
+Proof. exact window_request_bounded_proof. Qed.
+Check c01_window_request_bounded : forall len, Loops.window_request len <= Loops.WINDOW_CHUNK.
+Print Assumptions c01_window_request_bounded.
+
+Theorem c01_window_result_bounded : forall len remaining, Loops.window_result len remaining <= remaining.
+Proof. exact window_result_bounded_proof. Qed.
+Check c01_window_result_bounded : forall len remaining, Loops.window_result len remaining <= remaining.
+Print Assumptions c01_window_result_bounded.
+
+Theorem c01_window_result_same_bytes : forall len remaining, 0 <= len <= remaining ->
+  Loops.window_result len remaining = len.
+Proof. exact window_result_same_bytes_proof. Qed.
+Check c01_window_result_same_bytes : forall len remaining, 0 <= len <= remaining ->
+  Loops.window_result len remaining = len.
+Print Assumptions c01_window_result_same_bytes.
+
+Theorem c01_window_request_pinned_refuted : exists len remaining, 0 <= remaining /\
+  Loops.window_request_pinned len > remaining + Loops.WINDOW_CHUNK.
+Proof. exact window_request_pinned_refuted_proof. Qed.
+Check c01_window_request_pinned_refuted : exists len remaining, 0 <= remaining /\
+  Loops.window_request_pinned len > remaining + Loops.WINDOW_CHUNK.
+Print Assumptions c01_window_request_pinned_refuted.
 
 (** ---- page tree: termination of the flattening (visited set + fuel) is C18's theorem *)
 Theorem c01_page_tree_flatten_total : forall s root,
